@@ -211,10 +211,10 @@ func (b *BlockWise[C]) Do(r *pool.Message, maxSzx SZX, maxMessageSize uint32, do
 		return nil, errors.New("invalid token")
 	}
 
-	expire, ok := r.Context().Deadline()
-	if !ok {
-		expire = time.Now().Add(b.expiration)
-	}
+	// The request stays registered for as long as the call runs (the deferred Delete ends it): until the deadline of
+	// the caller's context or, without one, without a time limit (zero time). A block-wise response may arrive after
+	// any number of retransmissions of the request, i.e. long after the transfer timeout.
+	expire, _ := r.Context().Deadline()
 	_, loaded := b.sendingMessagesCache.LoadOrStore(r.Token().Hash(), cache.NewElement(r, expire, nil))
 	if loaded {
 		return nil, errors.New("invalid token")
